@@ -858,3 +858,118 @@ func TestVerifC09Reuse(t *testing.T) {
 		s.Done()
 	}
 }
+
+// ---- values of the types goom itself computes with (reflect.Value, reflect.Type, []interface{}) are values like any other ----
+
+//go:noinline
+func rvFn(x int) reflect.Value { return reflect.ValueOf(x) }
+
+//go:noinline
+func anyFn(x int) interface{} { return x }
+
+//go:noinline
+func rvArg(v reflect.Value) int { return 1 }
+
+//go:noinline
+func rtFn(x int) reflect.Type { return reflect.TypeOf(x) }
+
+//go:noinline
+func tupleFn(x int) []interface{} { return []interface{}{x} }
+
+type selfCase struct {
+	Target  string `json:"target"`  // rvFn | anyFn | rvArg | rtFn | tupleFn
+	Payload int    `json:"payload"` // what the reflect.Value describes
+}
+
+func runSelfTyped(ci interface{}, s *vkit.Stats) error {
+	c := ci.(*selfCase)
+	n := 7
+	payloads := []interface{}{42, "text", []int{1, 2, 3}, &n, struct{ A, B int }{1, 2}, nil, map[string]int{"a": 1}, 2.5}
+	pl := payloads[c.Payload%len(payloads)]
+	rv := reflect.ValueOf(pl) // the zero Value for the nil payload
+	same := func(a, b reflect.Value) bool {
+		if a.IsValid() != b.IsValid() {
+			return false
+		}
+		if !a.IsValid() {
+			return true
+		}
+		if a.Type() != b.Type() {
+			return false
+		}
+		if a.Kind() == reflect.Ptr || a.Kind() == reflect.Map || a.Kind() == reflect.Slice {
+			return a.Pointer() == b.Pointer() && (a.Kind() != reflect.Slice || a.Len() == b.Len())
+		}
+		return reflect.DeepEqual(a.Interface(), b.Interface())
+	}
+	b := mocker.Create()
+	defer b.Reset()
+	var err error
+	pv := guard(func() {
+		switch c.Target {
+		case "rvFn":
+			b.Func(rvFn).Return(rv)
+			if got := rvFn(1); !same(got, rv) {
+				err = fmt.Errorf("rvFn stubbed with reflect.ValueOf(%T): the caller received a reflect.Value of %v, want the one supplied", pl, describeRV(got))
+			}
+		case "anyFn":
+			b.Func(anyFn).Return(rv)
+			got, ok := anyFn(1).(reflect.Value)
+			if !ok {
+				err = fmt.Errorf("anyFn (interface{} result) stubbed with a reflect.Value of %T: the caller received dynamic type %T, want reflect.Value", pl, anyFn(1))
+			} else if !same(got, rv) {
+				err = fmt.Errorf("anyFn stubbed with a reflect.Value of %T: the boxed reflect.Value differs: %v", pl, describeRV(got))
+			}
+		case "rvArg":
+			other := reflect.ValueOf(struct{ X string }{"other"})
+			b.Func(rvArg).Return(-1).When(rv).Return(100)
+			if g, m := rvArg(rv), rvArg(other); g != 100 || m != -1 {
+				err = fmt.Errorf("rvArg with the condition value reflect.ValueOf(%T): the same reflect.Value -> %d (want 100), another -> %d (want -1)", pl, g, m)
+			}
+		case "rtFn":
+			want := reflect.TypeOf(pl)
+			if want == nil {
+				want = reflect.TypeOf(0)
+			}
+			b.Func(rtFn).Return(want)
+			if got := rtFn(1); got != want {
+				err = fmt.Errorf("rtFn stubbed with reflect.TypeOf(%T): caller received %v", pl, got)
+			}
+		default:
+			want := []interface{}{pl, 1, "x"}
+			b.Func(tupleFn).Return(want)
+			if got := tupleFn(1); len(got) != 3 || &got[0] != &want[0] {
+				err = fmt.Errorf("tupleFn ([]interface{} result) stubbed with a 3-element slice: caller received %v", got)
+			}
+		}
+	})
+	if pv != nil {
+		return fmt.Errorf("%s with payload %T: panicked: %v", c.Target, pl, pv)
+	}
+	if err != nil {
+		return err
+	}
+	s.Class("self-typed/" + c.Target)
+	s.NonTrivial(fmt.Sprint(*c))
+	return nil
+}
+
+func describeRV(v reflect.Value) string {
+	if !v.IsValid() {
+		return "<invalid>"
+	}
+	return fmt.Sprintf("%v(%v)", v.Type(), v)
+}
+
+func TestVerifC09SelfTyped(t *testing.T) {
+	quiet()
+	p := &vkit.Prop{ID: "C09", Unit: "self-typed-values", Journal: true, New: func() interface{} { return &selfCase{} },
+		Gen: func(rt *rapid.T) interface{} {
+			return &selfCase{Target: rapid.SampledFrom([]string{"rvFn", "anyFn", "rvArg", "rtFn", "tupleFn"}).Draw(rt, "target"), Payload: rapid.IntRange(0, 7).Draw(rt, "payload")}
+		},
+		Run: runSelfTyped}
+	s := p.Main(t, vkit.Scale(200, 1000))
+	if !vkit.Replaying() {
+		s.Done()
+	}
+}
